@@ -19,7 +19,7 @@ func (c14) ID() string     { return "C14" }
 func (c14) Level() string  { return "exploration" }
 func (c14) QuickRuns() int { return 14400 }
 func (c14) Rule() string {
-	return "free-running mode: the real engines, drivers and multi-run aggregation run inside a synctest bubble (fake clock only) with NO scheduler goroutine, over an unsynchronised pre-seeded wire (replies derived from the latest probe's bytes, including replies for TTLs that are not probed yet and destination replies that stop the sender), in a binary built with -race at GOMAXPROCS 1/4/16; seeded mixes of every parallel-capable variant, 1-4 concurrent protocol-level runs, RunTraceroute with 1-3 runs + 0-3 end-to-end probes + reverse-DNS fan-out, and a free-running stress of the identifier allocator; any race-detector report with a frame in github.com/DataDog/datadog-traceroute is a violation keyed by its two access sites; non-trivial = sender and receiver goroutines overlapped (at least two probes sent and one reply read); distinct = distinct scenario shapes"
+	return "free-running mode: the real engines, drivers and multi-run aggregation run inside a synctest bubble (fake clock only) with NO scheduler goroutine, over an unsynchronised pre-seeded wire (replies derived from the latest probe's bytes, including replies for TTLs that are not probed yet and destination replies that stop the sender), in a binary built with -race at GOMAXPROCS 1/4/16; seeded mixes of every parallel-capable variant, 1-4 concurrent protocol-level runs, RunTraceroute with 1-3 runs + 0-3 end-to-end probes + reverse-DNS fan-out, a quarter of the protocol-level mixes with a WriteTo that fails in mid-run, and a free-running stress of the identifier allocator; any race-detector report with a frame in github.com/DataDog/datadog-traceroute is a violation keyed by its two access sites; non-trivial = sender and receiver goroutines overlapped (at least two probes sent and one reply read); distinct = distinct scenario shapes"
 }
 func (c14) Assumptions() []string {
 	return []string{"the race detector is happens-before based: a pair is reported whenever both accesses execute without an ordering edge, so a replay in a fresh process reproduces it; it cannot see accesses that never execute in the explored runs", "the wire's only sender-to-receiver hand-off (latest probe bytes) happens inside //go:norace functions, so the harness adds no ordering between the two goroutines"}
@@ -54,6 +54,11 @@ func (c14) Gen(rng *rand.Rand, tier string, i int) *sim.Scenario {
 				c.MaxTTL = c.MinTTL + 2
 			}
 			sc.Calls = append(sc.Calls, c)
+		}
+		if chance(rng, 0.25) {
+			// a send fails in mid-run: the sender's error path runs while the receiver is looking up
+			// replies to the probes that did leave
+			sc.Knobs.FreeFailWrite = between(rng, 2, 5)
 		}
 	case k < 9: // whole requests
 		p := pick(rng, "udp", "udp6", "icmp", "icmp6", "tcp-sack", "tcp-syn", "tcp-prefer")
